@@ -156,9 +156,17 @@ func runOneVariant(repo, id, vfile string) int {
 				}
 			}
 			res.Reported = fresh
-			if hit {
+			switch {
+			case v.Expect == "SILENT":
+				// behaviour-preserving variant: any fresh report is a false alarm
+				if len(fresh) == 0 {
+					res.Outcome = "silent"
+				} else {
+					res.Outcome = "false-alarm"
+				}
+			case hit:
 				res.Outcome = "detected"
-			} else {
+			default:
 				res.Outcome = "missed"
 			}
 		}
@@ -211,12 +219,15 @@ func runVariants(c *Ctx, r *Report, id, repo string) {
 		}(i)
 	}
 	wg.Wait()
-	det, stale, miss := 0, 0, 0
+	det, stale, miss, silent := 0, 0, 0, 0
 	for i, res := range results {
 		switch res.Outcome {
 		case "detected":
 			det++
 			r.add(rule, Discharged, nil, "variant "+vs[i].Name, vs[i].File, true, "reported as "+strings.Join(res.Reported, ", "))
+		case "silent":
+			silent++
+			r.add(rule, Discharged, nil, "benign variant "+vs[i].Name, vs[i].File, true, "behaviour-preserving refactoring: nothing reported")
 		case "stale":
 			stale++
 		default:
@@ -229,6 +240,7 @@ func runVariants(c *Ctx, r *Report, id, repo string) {
 	r.Extra["variants_total"] = len(vs)
 	r.Extra["variants_detected"] = det
 	r.Extra["variants_stale"] = stale
+	r.Extra["variants_silent"] = silent
 	r.Extra["variants_missed"] = miss
 	r.Extra["variant_results"] = results
 }
